@@ -138,6 +138,12 @@ func c17Gen(c *core.Ctx) {
 		{"a c", map[string]string{"a": "b c ", "b": "echo ", "c": "X"}, "echo X X"},
 		{"a c", map[string]string{"a": "b ", "b": "echo", "c": "X"}, "echo X"},
 		{"a c d", map[string]string{"a": "b ", "b": "e ", "e": "echo", "c": "X ", "d": "Y"}, "echo X Y"},
+		// witnesses of open known findings (and their repaired neighbours)
+		{"a x) :;; esac", map[string]string{"a": "case x in ", "x": "y"}, "case x in y) :;; esac"},
+		{"a x) :;; esac", map[string]string{"a": "case x in ( ", "x": "y"}, "case x in ( y) :;; esac"},
+		{"a& echo y", map[string]string{"a": "true &"}, "true && echo y"},
+		{"a\nfoo\nE\n", map[string]string{"a": "cat <<E\n"}, "cat <<E\n\nfoo\nE\n"},
+		{"a\\\nb there", map[string]string{"ab": "echo hi"}, "echo hi there"},
 		// command position inside a command substitution
 		{"echo $(foo)", map[string]string{"foo": "echo hi"}, "echo $(echo hi)"},
 		{"echo `foo`", map[string]string{"foo": "echo hi"}, "echo `echo hi`"},
